@@ -21,7 +21,8 @@ for fname in FILES:
     for fr in raw['fns']:
         if fr['kind'] == 'Closure' or fr.get('derived'):
             continue
-        out['fns'][fr['pretty']] = {'sig': fn_sigkey(fr), 'callees': fn_callees(fr), 'crate': raw['crate']}
+        out['fns'][fr['pretty']] = {'sig': fn_sigkey(fr), 'callees': fn_callees(fr), 'crate': raw['crate'],
+                                   'params': [(l['ty'], l.get('name')) for l in fr['locals'][1:fr['arg_count'] + 1]]}
     for a in raw['adts']:
         out['adts'][a['path']] = [[(f['name'], f['ty']) for f in v['fields']] for v in a['variants']]
     for c in raw['consts']:
